@@ -45,6 +45,18 @@ _T1_BIG = [H('n_t1', 'H_t1_put_n14', 'put into T1(14) (last insert before the no
            H('n_t1s', 'H_t1_put_split', 'put into a FULL root border: border_split + new interior root; map semantics, RI, C12', T1B, tier='thorough', timeout=3400)]
 
 REGISTRY = {
+    'C05': [
+        H('n_t1', 'H_c05_get_miss_put_n1', 'get miss with checked_version on T1(1), then the real insert of that key: the recorded pair is stale', T1B),
+        H('n_t1', 'H_c05_get_miss_put_n3', 'same on T1(3), scrambled slots', T1B),
+        H('n_t1', 'H_c05_get_miss_put_t0d', 'same on the empty deleted root: the pair is never empty for an existing storage', 'all keys 0..8 bytes'),
+    ] + [H('n_t1', 'H_t1_get_n%s' % n, 'get miss reports (stable version, node) of the border it examined', T1B) for n in ('1', '2', '3')],
+    'C11': [
+        H('n_c16', 'H_c16_two_cycles', 'init; retire; [leave]; fin; init; fin: fin() releases what sessions retired (also with a session left open) and the thread objects', 'sessions=2; 2 cycles'),
+    ] + _T1_PUT + _T1_REMOVE,
+    'C09': [
+        H('s_version', 'H_ver_two_lockers_one_reader', 'node lock: two lockers + stable-version reader always complete (fair continuation), lock released, no dirty bit', 'NT=3, CTX=5', sync=3, timeout=900),
+        H('s_c14', 'H_c14_concurrent_enter', 'session acquisition never blocks: all enters complete', 'NT=3, CTX=6', sync=3, timeout=1200),
+    ] + _T1_GET + _T1_REMOVE + _T1_PUT,
     'C20': [
         H('n_misc', 'H_c20_t1_n1', 'real mem_usage (virtual dispatch) on T1(1): values of symbolic length 0..8 and alignment 1..16', 'exact node count / reserved / used bytes', unwind={'_M_realloc': 3}),
         H('n_misc', 'H_c20_t3', 'interior root over two leaves: per-level node counts and footprints', 'T3(2;1,2)', unwind={'_M_realloc': 3}),
@@ -108,6 +120,18 @@ REGISTRY = {
 }
 
 LEVEL_TEXT = {
+    'C05': dict(text='get part only: the real get (miss, with checked_version) followed by the real insert of the missed key, from an arbitrary valid state of T1(1), T1(3) and the empty deleted root; '
+                     'the pair is non-null and stale afterwards. The scan and iscan parts of this property are NOT decided (see not_applicable reasons of C03/C10: heap-backed std::string/vector/deque '
+                     'containers); the pinned tree has a reproduced defect there (DESIGN.md section 7, F2) that this check therefore cannot see.',
+                note='Bounds as C02 (one layer, keys 0..8 bytes).', ref='DESIGN.md 4/C05'),
+    'C11': dict(text='Release is decided with a ghost allocator (every operator new/delete variant tracked: live count, sized/aligned delete match, double free): fin() draining retired objects also with a session left open, and per-operation accounting of put/remove (nothing freed in place, failed unique insert leaves nothing behind).',
+                note='Dropping whole trees (border_node::destroy / interior_node::destroy: harness/n_misc.cpp H_c11_drop_*) produced 18k VCCs / 3.6M SAT variables and is not registered; the API-level destroy()/delete_storage()/create_storage() paths (scan over the storages tree, std::string keys) and cursor objects are outside this check; '
+                     'the lost root-creation race is outside (kind S on put did not fit the budget).', ref='DESIGN.md 4/C11'),
+    'C09': dict(text='(1) lock level: all interleavings (hook granularity, bounded contexts) of two lockers and a reader on the real node_version64, and of three enters on the session table, end with every thread '
+                     'finished in the fair continuation and no lock/dirty bit left; (2) single thread: in every kind-N get/put/remove query a wait (SPIN) or an optimistic retry (RETRY hook) is an assertion failure, '
+                     'so a reader never waits on something only itself could change.',
+                note='Tree-level writer/writer and writer/reader schedules (parent lock hand-over, prev-sibling lock order) are NOT decided: the kind-S harness on get||remove exceeded the budget (DESIGN.md 2.9). '
+                     'Liveness under every fair schedule is not a bounded property.', ref='DESIGN.md 4/C09', sched=True),
     'C20': dict(text='The real mem_usage traversal (virtual dispatch through the translated vtables, std::vector growth from the IR) is executed symbolically on concrete shapes '
                      'with symbolic keys and symbolic value lengths/alignments and compared with an independent per-level count of nodes and allocated bytes.',
                 note='Shapes T1(1) and T3(2;1,2) (the T1(3) and two-layer T2 harnesses exist in harness/n_misc.cpp but did not finish symex in 15 min - std::vector growth on byte-array heap objects - and are not registered); value lengths 0..8, alignments 1..16; the API wrapper mem_usage(name) adds only find_storage (covered by C13 where registered). '
